@@ -176,22 +176,24 @@ def _st(a, i=0, to=0, during=None):
     return {"a": a, "i": i, "to": to, "sel": [], "during": during or []}
 
 
-def systematic_rounds(sc, tag):
+def systematic_rounds(sc, tag, actions=None, marks=None):
     """Hand-placed stimuli around the real controller's rounds: consecutive rounds with every command left in flight,
     each environment action on each node before a round and during its validation wait, rounds at every clock mark
     (a window opening / closing between compute and validation), queue completions between rounds."""
     n = len(sc["poolOf"])
     behs = []
+    actions = ENV_ACTIONS if actions is None else actions
+    marks = sc["marks"] if marks is None else marks
 
     def add(steps, t):
         behs.append({"scenario": driver_scenario(sc), "steps": steps, "tag": "%s:%s" % (tag, t)})
     add([_st("Round")] * 5, "inflight")
     add([_st("Round"), _st("Queue", 1), _st("Round"), _st("Queue", 2), _st("Round"), _st("Round")], "queue")
-    for m in sc["marks"]:
+    for m in marks:
         add([_st("Tick", to=m), _st("Round"), _st("Round"), _st("Round")], "mark%d" % m)
         add([_st("Round"), _st("Tick", to=m), _st("Round"), _st("Round")], "round-mark%d" % m)
     for i in range(1, n + 1):
-        for a in ENV_ACTIONS:
+        for a in actions:
             pre = []
             if a in ("Terminate", "Gone"):
                 pre = [_st("DeleteClaim", i)]
@@ -203,6 +205,6 @@ def systematic_rounds(sc, tag):
                 pre = [_st("Launch", i), _st("Register", i)]
             add(pre + [_st(a, i), _st("Round"), _st("Round"), _st("Round")], "before:%s%d" % (a, i))
             add(pre + [_st("Round", during=[_st(a, i)]), _st("Round"), _st("Round")], "during:%s%d" % (a, i))
-            for m in sc["marks"][:2]:
+            for m in marks[:2]:
                 add(pre + [_st("Tick", to=m), _st("Round", during=[_st(a, i)]), _st("Round")], "mark%d-during:%s%d" % (m, a, i))
     return behs
